@@ -443,9 +443,25 @@ Section CKM.
     | 2 => smul 3 (smul 3 ck_u1p ck_u2) ck_u3
     | _ => smul 3 (smul 3 ck_u1 ck_u2p2) ck_u3
     end.
+  (* the repaired gradient proposed in fixes/D14.patch: correct derivative matrices, and
+     for CKMdg the chain-rule sign of sin(-p), cos(-p), exp(-/+ i p3) *)
+  Definition sg (x : cexpr) : cexpr := if neg then - x else x.
+  Definition fx_u1p : smat := M [[0;0;0]; [0; sg (- s3); sg k3]; [0; sg (- k3); sg (- s3)]].
+  Definition fx_u2p1 : smat := M [[sg (- s1); 0; sg (k1*m1)]; [0;0;0]; [sg (- k1 * p1); 0; sg (- s1)]].
+  Definition fx_u2p2 : smat := M [[0;0; sg (mi * s1 * m1)]; [0;0;0]; [sg (mi * s1 * p1); 0; 0]].
+  Definition fx_u3p : smat := M [[sg (- s2); sg k2; 0]; [sg (- k2); sg (- s2); 0]; [0;0;0]].
+  Definition g_CKM_fixed (k : nat) : smat :=
+    match k with
+    | 0 => smul 3 (smul 3 ck_u1 fx_u2p1) ck_u3
+    | 1 => smul 3 (smul 3 ck_u1 ck_u2) fx_u3p
+    | 2 => smul 3 (smul 3 fx_u1p ck_u2) ck_u3
+    | _ => smul 3 (smul 3 ck_u1 fx_u2p2) ck_u3
+    end.
 End CKM.
 Definition G_CKM := mkGate "CKMGate" [3] 4 (m_CKM false) None (Some (g_CKM false)) None.
 Definition G_CKMdg := mkGate "CKMdgGate" [3] 4 (m_CKM true) None (Some (g_CKM true)) None.
+Definition G_CKM_fixed := mkGate "CKMGate" [3] 4 (m_CKM false) None (Some (g_CKM_fixed false)) None.
+Definition G_CKMdg_fixed := mkGate "CKMdgGate" [3] 4 (m_CKM true) None (Some (g_CKM_fixed true)) None.
 
 (* U8Gate: QGL expression + numpy override (the same formula) *)
 Definition m_U8 : smat :=
